@@ -23,6 +23,7 @@ def ofCondvarOp (p : Nat) (last : Bool) (body : Bytes) : Condvar.Op → Op
   | .advance f => .advance f
   | .resume f o => .requestResume p f o
   | .push o l => .pushReplay o l last body
+  | .nop => .setPeer p
 
 /-- The forms the source has today (each one a field of `Gen.transferFacts`). -/
 structure Facts.Std (f : Facts) : Prop where
@@ -129,6 +130,8 @@ theorem sim_op {f : Facts} (hf : f.Std) (m : OvMode) (t : Condvar.NotifyTable) (
     have := hne ⟨o, l, last, body⟩
     simp only at this
     simp [absSh, Condvar.applyOp, this, hp]
+  | nop =>
+    simp [ofCondvarOp, step, hp, Condvar.applyOp, absSh]
 
 /-- my return value of a wait, as C12's `Ret` -/
 def toCondvarRet : Ret → Option Condvar.Ret
